@@ -528,6 +528,31 @@ def explore_one(args):
             "schedule": kv.get("schedule", "")[:2000], "wall_s": round(time.time() - t, 1), "raw": out[:200]}
 
 
+def walk_cfgs(quick):
+    n = 15000 if quick else 150000
+    return [("q=1 min=0 max=3 lazy=0 tick=1100 sp=1", "s0:11:5 s1:12:6 j0 j1 | s2:21:5 j2 s2:22:1 | s3:31:1 r3", n),
+            ("q=2 min=0 max=4 lazy=1 tick=700 sp=0", "s0:11:5 r0 d0 s0:12:1 | S1:21:6 A1 J1 Q1 | s2:31:1 s3:32:2 j3 j2 | s4:41:0", n),
+            ("q=1 min=1 max=3 lazy=0 tick=2100 sp=2", "s0:11:5 s0:12:6 s0:13:7 | s1:21:5 s2:22:6 s1:23:1 | S3:31:1 S3:32:1", n),
+            ("q=4 min=0 max=3 lazy=0 tick=300 sp=0", "s0:11:5 j0 s0:12:6 j0 s0:13:7 j0 | s1:21:5 j1 s1:22:6 j1 | s2:31:1 j2 s2:32:1 j2 | s3:41:1 j3", n)]
+
+
+def walk_one(args):
+    global DRV
+    cfg, scripts, n, seed, rep, DRV = args
+    line = f"W {n} {seed} {cfg} rep={rep} | {scripts}"
+    t = time.time()
+    try:
+        p = subprocess.run([drv()], input=line + "\n", timeout=1200, stdout=subprocess.PIPE, stderr=subprocess.PIPE, text=True)
+        out = p.stdout.strip().splitlines()[-1] if p.stdout.strip() else "W lost " + p.stderr[-200:]
+    except subprocess.TimeoutExpired:
+        out = "W timeout"
+    kv = dict(x.split("=", 1) for x in out.split()[1:] if "=" in x)
+    return {"config": f"{cfg} | {scripts}", "repaired": rep, "walks": int(kv.get("walks", 0)), "done": int(kv.get("done", 0)),
+            "deadlocks": int(kv.get("deadlocks", -1)), "faults": int(kv.get("faults", -1)), "bound": int(kv.get("bound", 0)),
+            "steps": int(kv.get("steps", 0)), "first_bad": kv.get("first-bad"), "schedule": kv.get("schedule", "")[:2000],
+            "wall_s": round(time.time() - t, 1)}
+
+
 ASSUMPTIONS = [
     "sequentially consistent atomics (the controlled scheduler and the model interleave whole atomic operations; weak-memory effects on the plain volatile reads are outside)",
     "scheduling points of the implementation run are the atomic operations and POSIX calls (plain volatile reads happen together with the preceding scheduling point); the Lean theorems quantify over the finer interleaving of every single shared access",
@@ -576,13 +601,17 @@ def check(ctx):
         elif r["diff"]:
             stats["diffs_with_violation"] = stats.get("diffs_with_violation", 0) + 1
 
-    xres = []
+    xres, wres = [], []
     try:
         with cf.ProcessPoolExecutor(C.NCPU) as pool:
             xf = [pool.submit(explore_one, (c, sc, cap, 1, DRV)) for c, sc, cap in explore_cfgs(ctx.tier == "quick")]
             xf.append(pool.submit(explore_one, ("q=1 min=0 max=3 lazy=0 tick=0 sp=0", "s0:11:5 s1:12:6 j0 j1", 1500000, 0, DRV)))
+            wf = [pool.submit(walk_one, (c, sc, n, ctx.seed * 7 + k, 1, DRV)) for k, (c, sc, n) in enumerate(walk_cfgs(ctx.tier == "quick"))]
+            c0, sc0, n0 = walk_cfgs(True)[0]
+            wf.append(pool.submit(walk_one, (c0, sc0, n0, ctx.seed, 0, DRV)))
             explore(ctx, exe, pool, repaired, stats, on_result)
             xres = [f.result() for f in xf]
+            wres = [f.result() for f in wf]
     finally:
         for f in (exe, DRV):
             try:
@@ -611,6 +640,11 @@ def check(ctx):
             ctx.broken.append(f"exhaustive exploration of the Lean model (repaired code) found {x['first_bad']} in {x['config']}: schedule {x['schedule'][:300]}")
         if x["repaired"] == 0 and x["deadlocks"] == 0:
             ctx.notes.append("sanity: the explorer no longer finds the D17 deadlock in the model of the ORIGINAL code")
+    ctx.cov["model_random_walks"] = wres
+    for w in wres:
+        if w["repaired"] == 1 and (w["deadlocks"] != 0 or w["faults"] != 0):
+            ctx.broken.append(f"random walk of the Lean model (repaired code) ended in {w['first_bad']} in {w['config']}: schedule {w['schedule'][:300]}")
+    ctx.log("model random walks: " + "; ".join(f"{w['walks']} walks/{w['steps']} steps dl={w['deadlocks']} rep={w['repaired']}" for w in wres))
     ctx.log("model exploration: " + "; ".join(f"{x['states']} states{'' if x['exhausted'] else ' (capped)'} dl={x['deadlocks']} rep={x['repaired']}" for x in xres))
     ctx.log(f"{stats['runs']} runs, {stats['steps']} scheduler steps, verdicts {stats['verdicts']}, violation classes {stats['classes']}, model diffs {stats['diffs']}")
     for sig, (steps, scn, r) in sorted(found.items()):
